@@ -160,19 +160,20 @@ theorem dispatch_grow (env : DEnv) (s : DState) (caller : SessKey) (req : Nat) (
 theorem syncCall_grow (env : DEnv) (s : DState) (caller : SessKey) (req : Nat) (opts : Dict) (proc : String)
     (args : List WVal) (kw : Dict) (rnd : Nat) :
     TimersGrow s.timers (syncCall env s caller req opts proc args kw rnd).st.timers := by
-  have hnp : TimersGrow s.timers (noProc env s caller req).st.timers := by
-    unfold noProc
-    split
-    · exact syncCancel_grow ..
-    · exact TimersGrow.refl _
   rw [syncCall_eq]
   split
-  · exact hnp
   · split
-    · exact hnp
+    · exact TimersGrow.refl _
+    · split
+      · exact TimersGrow.refl _
+      · unfold laterChunk
+        exact dispatch_grow env { s with d := s.d.setInv _ } ..
+  · split
+    · exact TimersGrow.refl _
     · split
       · exact TimersGrow.refl _
       · split
+        · exact TimersGrow.refl _
         · split
           · exact TimersGrow.refl _
           · rw [firstChunk_eq]
@@ -180,10 +181,6 @@ theorem syncCall_grow (env : DEnv) (s : DState) (caller : SessKey) (req : Nat) (
             · exact TimersGrow.refl _
             · exact TimersGrow.refl _
             · exact dispatch_grow env (recordCall _ _ _) ..
-        · split
-          · exact TimersGrow.refl _
-          · unfold laterChunk
-            exact dispatch_grow env { s with d := s.d.setInv _ } ..
 
 theorem syncRegister_timers (s : DState) (callee : SessKey) (req : Nat) (proc m invoke : String)
     (disclose fwd wampURI : Bool) : (syncRegister s callee req proc m invoke disclose fwd wampURI).st.timers = s.timers := by
@@ -466,89 +463,34 @@ theorem syncYield_cancels {env : DEnv} {s : DState} (h : DealerInv s) (callee : 
 
 
 
-theorem laterChunk_full_timers {env : DEnv} {s : DState} (h : DealerInv s) (reg : Reg) {caller : SessKey} {req : Nat}
-    (opts : Dict) (args : List WVal) (kw : Dict) {iid : ReqId} {v0 : Invk}
-    (hb : s.d.byCall? ⟨caller, req⟩ = some iid) (hfi : s.d.findInv iid = some v0) (hf : env.full v0.callee = true) :
-    (laterChunk env s reg caller req opts args kw iid v0).st.timers = (s.cancelTimer v0.timer).timers := by
-  obtain ⟨_, v, hf', hv, hvi, hvc, hve⟩ := h.call.byCall?_some hb
-  rw [hfi] at hf'; cases hf'
-  have h1 : DealerInv { s with d := s.d.setInv { v0 with inProgress := opts.optFlag OptProgress } } :=
-    h.setInv (v' := { v0 with inProgress := opts.optFlag OptProgress }) hv rfl rfl
-  have hfi' : (s.d.setInv { v0 with inProgress := opts.optFlag OptProgress }).findInv ⟨v0.callee, iid.req⟩ =
-      some { v0 with inProgress := opts.optFlag OptProgress } := by
-    have := findInv_setInv h.call.invIds (v := { v0 with inProgress := opts.optFlag OptProgress }) hv rfl
-    have hid : (⟨v0.callee, iid.req⟩ : ReqId) = v0.id := by rw [hvi, hve]
-    rw [hid]; exact this
-  unfold laterChunk
-  simp only
-  rw [dispatch_full h1.call _ _ _ hf hfi']
-  cases v0.timer <;> rfl
-
 theorem syncCall_cancels {env : DEnv} {s : DState} (h : DealerInv s) (caller : SessKey) (req : Nat) (opts : Dict)
     (proc : String) (args : List WVal) (kw : Dict) (rnd : Nat) {v : Invk} (hv : v ∈ s.d.invs) {tid : Nat}
     (hvt : v.timer = some tid)
     (hgone : v.callId ∉ (syncCall env s caller req opts proc args kw rnd).st.d.calls) :
     TimersGrowC tid s.timers (syncCall env s caller req opts proc args kw rnd).st.timers := by
   have hpend := (h.call.inv_call hv).1
-  have hnp : v.callId ∉ (noProc env s caller req).st.d.calls → TimersGrowC tid s.timers (noProc env s caller req).st.timers := by
-    unfold noProc
-    split
-    · exact syncCancel_cancels h _ _ _ _ _ hv hvt
-    · intro hg; exact absurd hpend hg
-  rw [syncCall_eq] at hgone ⊢
-  split at hgone
-  · exact hnp hgone
-  · rename_i reg hm
-    have hmem := matchProcedure_mem hm
-    split at hgone
-    · rename_i he; rw [if_pos he]; exact hnp hgone
-    · split at hgone
-      · exact absurd hpend hgone
-      · split at hgone
-        · rename_i hb
-          have hc0 : (⟨caller, req⟩ : ReqId) ∉ s.d.calls := by
-            intro hc'
-            obtain ⟨i, _, hb', _⟩ := h.call.lookup hc'
-            rw [hb] at hb'; cases hb'
-          split at hgone
-          · exact absurd hpend hgone
-          · rename_i callee reg' hp
-            have hs := (pickCallee_shape hp).1
-            exfalso
-            cases hr : callRefusal env s.d.allowDisclose reg caller callee opts with
-            | some r =>
-              rw [firstChunk_eq, hr] at hgone
-              cases r <;> exact hgone hpend
-            | none =>
-              cases hf : env.full callee with
-              | false =>
-                rw [firstChunk_ok args kw reg' hr hf] at hgone
-                simp only [armTimer_calls] at hgone
-                exact hgone (List.mem_append_left _ hpend)
-              | true =>
-                rw [(firstChunk_full h hmem args kw (proc := proc) hs hc0 hr hf).2] at hgone
-                exact hgone hpend
-        · rename_i hne hprog _ iid hb
-          split at hgone
-          · exact absurd hpend hgone
-          · rename_i v0 hfi
-            rw [if_neg hne, if_neg hprog]
-            cases hf : env.full v0.callee with
-            | false =>
-              rw [laterChunk_ok reg caller req opts args kw iid hf] at hgone
-              simp only [armTimer_calls] at hgone
-              exact absurd hpend hgone
-            | true =>
-              rw [(laterChunk_full h reg opts args kw hb hfi hf).2] at hgone
-              have he : v.callId = ⟨caller, req⟩ := eq_of_gone hpend hgone
-              obtain ⟨_, v0', hf', hv0, _, hvc0, _⟩ := h.call.byCall?_some hb
-              rw [hfi] at hf'; cases hf'
-              have : v = v0 := nodup_map_inj h.call.invCalls hv hv0 (he.trans hvc0.symm)
-              subst this
-              rw [laterChunk_full_timers h reg opts args kw hb hfi hf, hvt]
-              exact TimersGrowC.of_cancel s tid
-
-
+  revert hgone
+  refine syncCall_cases (env := env)
+    (P := fun o => v.callId ∉ o.st.d.calls → TimersGrowC tid s.timers o.st.timers) h caller req opts proc args kw rnd
+    ?_ ?_ ?_ ?_ ?_ ?_ ?_ ?_
+  · intro _ hg; exact absurd hpend hg
+  · intro iid v0 _ _ _ _ _ _ _ hg
+    simp only [armTimer_calls] at hg; exact absurd hpend hg
+  · intro iid v0 hb hfi hv0 _ hvc0 _ _ hg
+    have he : v.callId = ⟨caller, req⟩ := eq_of_gone hpend hg
+    have : v = v0 := nodup_map_inj h.call.invCalls hv hv0 (he.trans hvc0.symm)
+    subst this
+    show TimersGrowC tid s.timers (({ s with d := s.d.setInv _ } : DState).cancelTimer v.timer).timers
+    rw [hvt]
+    exact TimersGrowC.of_cancel ({ s with d := s.d.setInv _ } : DState) tid
+  · intro _ _ _ hg; exact absurd hpend hg
+  · intro reg reg' callee e _ _ _ _ _ _ _ hg; exact absurd hpend hg
+  · intro reg reg' callee _ _ _ _ _ _ _ hg; exact absurd hpend hg
+  · intro reg reg' callee _ _ _ _ _ _ _ _ hg
+    simp only [armTimer_calls] at hg
+    exact absurd (List.mem_append_left _ hpend) hg
+  · intro reg reg' callee _ hc0 _ _ _ _ _ _ hg
+    rw [fullOut_fresh_calls hc0] at hg; exact absurd hpend hg
 
 /-! ### session removal cancels the timers of the calls it ends -/
 
